@@ -123,6 +123,11 @@ static RunResult execute(const Json &plan, std::vector<std::string> *log = nullp
         p->exec(plan, rr, h);
         if (swarm_cpu) {
                 cpu_window_close(&win);
+                for (size_t i = 0; i < cpu_nslots(); i++) { // which implementations carried this run's traffic
+                        std::string t = cpu_slot_target(i);
+                        if (!t.empty())
+                                g_cnt.m["cpu.select." + cpu_slot_name(i) + "=" + t]++;
+                }
                 cpu_cold_start();
                 COUNTN("cpu.trapped_steps", win.total_steps);
                 COUNTN("cpu.resolver_windows", win.windows);
